@@ -74,6 +74,8 @@ def run_batch(prop, cfg, tier, verif_seed, nruns, workers, wall_cap, out=print):
            "by_scenario": Counter()}
     digests, nt_digests, sched_digests = set(), set(), set()
     samples, violations, errors = [], [], []
+    known_entries = load_known(prop)
+    n_unlisted_seen = 0
     stopped_early = False
     ctx = mp.get_context("fork")
     try:
@@ -123,9 +125,11 @@ def run_batch(prop, cfg, tier, verif_seed, nruns, workers, wall_cap, out=print):
                                             "scenario": r["scenario"], "case": r["sample"]})
                         if r["violation"]:
                             violations.append(r)
+                            if match_known(known_entries, r["violation"]) is None:
+                                n_unlisted_seen += 1
                         if r["error"]:
                             errors.append(r)
-                if len(violations) >= 200 or len(errors) >= 5:
+                if n_unlisted_seen >= 200 or len(errors) >= 5:
                     stopped_early = True
                     for p in pending:
                         p.cancel()
